@@ -23,7 +23,7 @@
 From Coq Require Import ZArith List Bool.
 From FV Require Import Model.Peg Model.ParserStrings Model.ParserAst Model.ParserActions Model.Parser.
 From FV Require Export Model.ParserFsys.
-From FV Require Model.CompilerValidate.
+From FV Require Model.CompilerTotal Model.CompilerValidate.
 Import ListNotations.
 Open Scope Z_scope.
 
@@ -67,15 +67,30 @@ Fixpoint parsed_fs (fs : fsys) : option CompilerValidate.pfs :=
     end
   end.
 
-(** with the diagnostic (the judge reads the class of the error off it for its branch tag) *)
-Definition parse_program_diag (fs : fsys) (root : path) : option CompilerValidate.pres :=
+(** the names the grammar guarantees (Identifier is not empty; a type name does not start with a
+    dot): the hypothesis of the totality theorems, decidable, checked by the judge on every program *)
+Definition nonempty (b : bytes) : bool := match b with [] => false | _ :: _ => true end.
+Definition file_names_okb (f : frugal) : bool :=
+  forallb (fun s => nonempty (sv_name s) && forallb (fun m => nonempty (m_name m)) (sv_methods s)) (fr_services f)
+  && forallb (fun s => nonempty (sc_name s) && forallb (fun o => nonempty (o_name o)) (sc_ops s)) (fr_scopes f)
+  && forallb (fun td => CompilerTotal.name_ok (CompilerValidate.type_name (td_type td))) (fr_typedefs f).
+Definition pfs_names_okb (pfs : CompilerValidate.pfs) : bool :=
+  forallb (fun e => match snd e with
+                    | CompilerValidate.FParsed f => file_names_okb f
+                    | CompilerValidate.FSyntax _ => true
+                    end) pfs.
+
+(** one pass: whether every parsed file has grammatical names, and the answer with its diagnostic
+    (the judge reads the class of the error off it for its branch tag); None = the PEG interpreter
+    gave no verdict on some text *)
+Definition parse_program_checked (fs : fsys) (root : path) : option (bool * CompilerValidate.pres) :=
   match parsed_fs fs with
-  | Some pfs => Some (CompilerValidate.cparse_program pfs root)
+  | Some pfs => Some (pfs_names_okb pfs, CompilerValidate.cparse_program pfs root)
   | None => None
   end.
 
 Definition parse_program (fs : fsys) (root : path) : fres :=
-  match parse_program_diag fs root with
-  | Some r => fres_of r
+  match parse_program_checked fs root with
+  | Some (_, r) => fres_of r
   | None => FFuel
   end.
